@@ -178,12 +178,14 @@ def run_captured(ctx):
         c = c02.gen_case(ctx.rng)
         if c["api"] != "solve_axes":          # solve_axes runs with cse=False
             cases.append(c)
-    with Wrap() as w:
+    from props import c02_sys
+    with Wrap() as w, c02_sys.SysWrap() as sw:       # stream (E): the equations of the real stage 3 during the same calls
         for c in cases:
             r = c02.call_real(c)
             ctx.count("cse:real-calls")
             if r.get("exc") == "timeout":
                 ctx.count("cse:real-call-timeout")
+    w.sys = sw
     return w
 
 
@@ -672,4 +674,7 @@ def run_cse(ctx):
     if items_vr:
         j, r = items_vr[min(len(items_vr) - 1, 3)]
         ctx.sample({"value_range_of": render(j), "real": r})
+    # (E) `forestSys` of the CSE theorems vs the equations the real stage 3 hands to its solver (props/c02_sys.py)
+    from props import c02_sys
+    c02_sys.run_forest_sys(ctx, w.sys)
     return directed
